@@ -16,6 +16,8 @@ PROGRAMS = {
     "lexerr": 'x := "unterminated\n',
     "synerr": 'if x {\n',
     "typeerr": 'x := 1 + "a"\n',
+    # output that contains CR LF, CR and a trailing blank inside the script text (round 7: C19-8, line ends "normalised" before writing)
+    "crlf": 'line := "Content-Type: text/plain\\r\\n"\nprint(line + "x\\r", len(line))\nraw := `a \r\nb`\nprint(raw)\n',
     "batcherr": 'x := 1\nswitch x {\ncase 1:\n\tbreak\n}\n',      # accepted for bash, conversion error for batch
 }
 NAMES = ["prog.tsh", "a.b.c.tsh", "noext", "my prog.tsh", ".hidden", "x.sh", "deep/er/p.tsh", "x.bat",
@@ -109,6 +111,8 @@ def gen_cases(rng, n):
             for prog, ts in (("good", ["bash"]), ("good2", ["batch", "bash"]), ("batcherr", ["bash", "batch"])):
                 args = ["-i", name, "-o", out] + [x for t in ts for x in ("-t", t)]
                 cases.append(dict(name=os.path.normpath(name), prog=prog, args=args, kind="normal", setup={}))
+    for ts in (["bash"], ["batch"], ["bash", "batch"], ["batch", "bash"]):
+        cases.append(dict(name="prog.tsh", prog="crlf", args=["-i", "prog.tsh", "-o", "out"] + [x for t in ts for x in ("-t", t)], kind="normal", setup={}))
     return cases
 
 
